@@ -488,7 +488,7 @@ def gen_pool(rnd, ir, dname, nrec=10, nopen=2, darr_len=None):
     return openargs, recs
 
 
-def gen_history(rnd, ir, dname, openargs, recs, hdr, sizes, length=None, toggles=True, setbufs=True):
+def gen_history(rnd, ir, dname, openargs, recs, hdr, sizes, length=None, toggles=True, setbufs=True, mono_p=0.25):
     """one random history.  Buffer sizes are drawn so that records end at, just before and past
     the end of the packet; 30 % of back-end answers are "full"."""
     length = length or rnd.randint(5, 40)
@@ -509,7 +509,7 @@ def gen_history(rnd, ir, dname, openargs, recs, hdr, sizes, length=None, toggles
         buf = hdr_bytes + rnd.randint(0, 6 * typical + 8)
     # a family of histories that fill packets *exactly*: one record repeated, buffer = header + m records
     mono = None
-    if recs and sizes and rnd.random() < 0.25:
+    if recs and sizes and rnd.random() < mono_p:
         j = rnd.randrange(min(len(recs), len(sizes)))
         if sizes[j] % 8 == 0 and sizes[j] > 0:
             mono = recs[j]
